@@ -9,9 +9,9 @@ from c04 import enc_parts
 
 GEN = ['GChecks.v', 'GParser.v']
 
-SCALARS = ['x', 'y', '', 'True', '1', 1, 0, -3, 2.5, True, False, None]
+SCALARS = ['x', 'y', '', 'True', '1', 1, 0, -3, 2.5, True, False, None, 'J\u00fcrgen', 'caf\u00e9', '\u65e5\u672c', '\U0001f600']
 KEYS = ['a', 'b', 'c']
-LITERALS = ["'x'", '"x"', "'y'", "''", "'a b'", '"it\'s"', '1', '0', '-3', '2.5', '1e3', 'True', 'False',
+LITERALS = ["'caf\u00e9'", '"J\u00fcrgen"', "'x'", '"x"', "'y'", "''", "'a b'", '"it\'s"', '1', '0', '-3', '2.5', '1e3', 'True', 'False',
             'None', '(1, 2)', '[1]', "{'a', 1}", '1_000', '0x10', "b'x'", '1j']
 
 
